@@ -149,6 +149,48 @@ def rule_r2(prog, res) -> None:
         res.violation("C02.R2", first_bad[0], first_bad[0].node, first_bad[1], key_extra=first_bad[2])
     else:
         res.ok("C02.R2", res.site(tb, "flag bits"), f"to_bytes -> from_bytes is the identity on all {n_ok} flag combinations and every bit is the column's position in ATTR_ORDER")
+    # the header is one byte on disk: every reader takes exactly the number of bytes the writer's encoding has
+    n_rd = 0
+    for fi in prog.funcs:
+        for c in calls_in(fi):
+            if fb in prog.resolve_call(fi, c).funcs() and c.args:
+                a0 = c.args[0]
+                if isinstance(a0, ast.Call) and isinstance(a0.func, ast.Attribute) and a0.func.attr == "read":
+                    n_rd += 1
+                    res.touch(fi)
+                    sz = a0.args[0] if a0.args else None
+                    if isinstance(sz, ast.Constant) and sz.value == 1:
+                        res.ok("C02.R2", res.site(fi, "header read"), "the reader takes the one header byte")
+                    else:
+                        res.violation("C02.R2", fi, c, f"the patch header is decoded from `{unparse(a0)}`, not from exactly the one byte that is written: with no byte read every flag decodes as False (weights and redshifts of the patch are ignored, the record layout is misread), with more the data section is eaten into", key_extra="header-read-size")
+    if n_rd < 2:
+        raise AnalysisError(f"C02.R2: only {n_rd} header reads (from_bytes(f.read(1))) found, minimum 2")
+    # what the reader announces is what it delivers: DataChunkInfo(has_X=…) of a column reader is true exactly when a
+    # column name for X was given
+    n_ci = 0
+    for fi in prog.funcs:
+        if fi.name != "__init__" or fi.cls is None:
+            continue
+        for c in calls_in(fi):
+            if info not in prog.resolve_call(fi, c).classes():
+                continue
+            for k_, v_ in [(k.arg, k.value) for k in c.keywords if k.arg and k.arg.startswith("has_")] + [(f_, a_) for f_, a_ in zip(list(info.class_ann), c.args)]:
+                attr = k_[4:].rstrip("s")
+                prm = next((q for q in fi.param_names() if q.endswith("_name") and q[: -len("_name")].rstrip("s").startswith(attr[:5])), None)
+                if prm is None or not any(isinstance(y, ast.Name) and y.id == prm for y in ast.walk(v_)):
+                    continue
+                n_ci += 1
+                res.touch(fi)
+                try:
+                    tab = {given: bool(ceval(v_, {prm: ("col" if given else None)})) for given in (True, False)}
+                except Exception:  # noqa: BLE001
+                    raise AnalysisError(f"C02.R2: cannot fold {k_}={unparse(v_)} in {fi.short}") from None
+                if tab == {True: True, False: False}:
+                    res.ok("C02.R2", res.site(fi, k_), f"{k_} is true exactly when `{prm}` is given")
+                else:
+                    res.violation("C02.R2", fi, c, f"{k_}={unparse(v_)} is {tab[True]} when `{prm}` is given and {tab[False]} when it is not: the header written for the patches announces columns that are not stored (or hides stored ones), the binary records are read back with the wrong layout", key_extra=f"chunk-info-flag-{k_}")
+    if n_ci < 3:
+        raise AnalysisError(f"C02.R2: only {n_ci} has_* flags of reader constructors folded, minimum 3")
     # zip(ATTR_ORDER, <tuple>) pairings
     nzip = 0
     for fi in prog.funcs:
